@@ -121,6 +121,20 @@ InterpreterEnv::InterpreterEnv(std::vector<valtype>& stack_in, const CScript& sc
 
 bool CastToBool(const valtype& vch);
 
+// the per-step history refers to positions inside the current script: it cannot be used any more once the
+// session moves on to another script (rewinding across that boundary is refused anyway)
+static void ClearHistory(InterpreterEnv& env)
+{
+    env.stack_history.clear();
+    env.altstack_history.clear();
+    env.pc_history.clear();
+    env.nOpCount_history.clear();
+    env.vfExec_history.clear();
+    env.pbegincodehash_history.clear();
+    env.execdata_history.clear();
+    env.opcode_pos_history.clear();
+}
+
 bool StepScript(InterpreterEnv& env)
 {
     // tapscript commitments go first
@@ -161,6 +175,7 @@ bool StepScript(InterpreterEnv& env)
             stepped = StepScript(env, pc);
         } catch (...) {
             // a failing operation may also throw (script number errors): drop its history entry as well
+            env.pc = env.pc_history.back();
             env.stack_history.pop_back();
             env.altstack_history.pop_back();
             env.pc_history.pop_back();
@@ -172,6 +187,8 @@ bool StepScript(InterpreterEnv& env)
             throw;
         }
         if (!stepped) {
+            // the failing operation is not executed: stay positioned at it (reading it moved pc past it)
+            env.pc = env.pc_history.back();
             // undo above pushes
             env.stack_history.pop_back();
             env.altstack_history.pop_back();
@@ -227,6 +244,7 @@ bool StepScript(InterpreterEnv& env)
 
             pc = env.pbegincodehash = script.begin();
             pend = script.end();
+            ClearHistory(env);
             env.curr_op_seq++;
             env.nOpCount = 0; // reset to avoid hitting limit prematurely!
             return true;
@@ -247,6 +265,7 @@ bool StepScript(InterpreterEnv& env)
         env.successor_script.clear();
         pc = env.pbegincodehash = script.begin();
         pend = script.end();
+        ClearHistory(env);
         env.curr_op_seq++;
 
         // figure out if p2sh
